@@ -561,6 +561,9 @@ fn run_behaviour(b: usize, max_in: i64, max_out: i64, two: bool, stims: &[Value]
         match w.apply(s) {
             Some(l) => out.push(l.to_string()),
             None => {
+                if std::env::var("VERIF_DEBUG").is_ok() {
+                    eprintln!("NA b={b} stim={s} tx={:?}", w.tx.iter().map(|(c, t)| (*c, t.st, t.trs.clone(), t.ctr)).collect::<Vec<_>>());
+                }
                 drift = true;
                 break;
             }
